@@ -137,12 +137,15 @@ Jcon(s) == [r \in 1..s.n |-> [c \in 1..s.n |-> IF r = c THEN s.a[r] ELSE s.w[r]]
 Jobj(s) == << [c \in 1..s.n |-> (s.p)] >>
 Strip(V) == [V EXCEPT !.kind = "none"]          \* same units, no scaling
 
-\* multipliers of the problem  min f  s.t. y = const (all constraint elements active):  Jf^T + Jg^T lam = 0, solved with
-\* Cramer's rule for one or two elements;  alternatively all design variables on a bound:  mu_c = -Jf[c]
+\* multipliers of the problem  min f  s.t. y = const (all constraint elements active):  Jf^T + Jg^T lam = 0, solved by
+\* elimination for one or two elements (law Stationary checks the solution);  alternatively all design variables on a
+\* bound:  mu_c = -Jf[c]
 Lam(Jf, Jg) == IF Len(Jg) = 1 THEN <<Neg(Div(Jf[1][1], Jg[1][1]))>>
-               ELSE LET det == Sub(Mul(Jg[1][1], Jg[2][2]), Mul(Jg[1][2], Jg[2][1]))
-                    IN << Div(Sub(Mul(Jf[1][2], Jg[2][1]), Mul(Jf[1][1], Jg[2][2])), det),
-                          Div(Sub(Mul(Jf[1][1], Jg[1][2]), Mul(Jf[1][2], Jg[1][1])), det) >>
+               ELSE \* elimination with ratios first (Cramer's products overflow TLC's 32-bit integers); Jg[1][1] # 0
+                    LET q == Div(Jg[1][2], Jg[1][1])
+                        l2 == Div(Sub(Mul(Jf[1][1], q), Jf[1][2]), Sub(Jg[2][2], Mul(Jg[2][1], q)))
+                        l1 == Neg(Div(Add(Jf[1][1], Mul(Jg[2][1], l2)), Jg[1][1]))
+                    IN <<l1, l2>>
 Mu(Jf) == [c \in DOMAIN Jf[1] |-> Neg(Jf[1][c])]
 
 Expect(s) ==
